@@ -1,6 +1,8 @@
 import Yaql.Drv.Util
 import Yaql.Model.Resolve
 import Yaql.Model.ResolveCtx
+import Yaql.Model.Interface
+import Yaql.Model.Invoke
 import Yaql.Model.Signature
 /-! Driver for the overload-resolution model (C05, C06, C11, C12): decodes overload
 families, class graphs and calls, runs `Yaql.Resolve.resolve` (or `resolveOld`-free
@@ -125,25 +127,37 @@ def encMapping (m : Mapping) : Json :=
 /-- one history on live contexts: `{"defs":[fd…], "steps":[{"k":"root"} | {"k":"child","i":n} |
     {"k":"reg","i":n,"name":s,"fid":n,"x":b} | {"k":"del","i":n,"name":s,"fid":n} |
     {"k":"multi","ms":[n…]} | {"k":"linked","p":n|null,"t":n} |
-    {"k":"call","i":n,"name":s,"call":{…}}]}` -> the outcome of every call step, made in the state
-    of its moment (`Yaql.ResolveCtx.run` / `resolveIn`) -/
+    {"k":"call","i":n,"name":s,"call":{…}} |
+    {"k":"yi","i":n,"recv"?:v} | {"k":"inject","i":n,"recv"?:v} | {"k":"on","y":k,"recv":v} |
+    {"k":"ycall","y":k,"name":s,"call":{args, kw}}]}` -> the outcome of every call / ycall step, made in the state
+    of its moment (`Yaql.ResolveCtx.run` / `resolveIn`; `Yaql.Interface.istep` for the interface steps) -/
 def runHist (L : Lattice) (h : Json) : Json :=
   let fds := (jarr h "defs").map decFDef
   let defs : Yaql.ResolveCtx.Defs := fun i => (fds.find? (·.id == i)).getD default
-  let go := fun (acc : Yaql.ResolveCtx.St × List Json) (stp : Json) =>
-    let (st, outs) := acc
+  let recvOf := fun (j : Json) => if jhas j "recv" then some (decVal (jget j "recv")) else none
+  let go := fun (acc : Yaql.Interface.ISt × List Json) (stp : Json) =>
+    let (s, outs) := acc
+    let ctxOp := fun (op : Yaql.ResolveCtx.Op) => ((Yaql.Interface.istep L defs s (.ctx op)).1, outs)
     match jstr stp "k" with
-    | "root" => (Yaql.ResolveCtx.step st .root, outs)
-    | "child" => (Yaql.ResolveCtx.step st (.child (jnat stp "i")), outs)
-    | "reg" => (Yaql.ResolveCtx.step st
-                  (.register (jnat stp "i") (nm (jstr stp "name")) (jnat stp "fid") (jbool stp "x")), outs)
-    | "del" => (Yaql.ResolveCtx.step st (.delete (jnat stp "i") (nm (jstr stp "name")) (jnat stp "fid")), outs)
-    | "multi" => (Yaql.ResolveCtx.step st (.multi ((jarr stp "ms").map asNat)), outs)
-    | "linked" => (Yaql.ResolveCtx.step st (.linked (jnatOpt stp "p") (jnat stp "t")), outs)
+    | "root" => ctxOp .root
+    | "child" => ctxOp (.child (jnat stp "i"))
+    | "reg" => ctxOp (.register (jnat stp "i") (nm (jstr stp "name")) (jnat stp "fid") (jbool stp "x"))
+    | "del" => ctxOp (.delete (jnat stp "i") (nm (jstr stp "name")) (jnat stp "fid"))
+    | "multi" => ctxOp (.multi ((jarr stp "ms").map asNat))
+    | "linked" => ctxOp (.linked (jnatOpt stp "p") (jnat stp "t"))
     | "call" =>
-        (st, encOutcome (Yaql.ResolveCtx.resolveIn L defs st (jnat stp "i") (nm (jstr stp "name"))
-                           (decCall (jget stp "call"))) :: outs)
-    | _ => (st, outs)
+        (s, encOutcome (Yaql.ResolveCtx.resolveIn L defs s.st (jnat stp "i") (nm (jstr stp "name"))
+                          (decCall (jget stp "call"))) :: outs)
+    -- the host entry point (Yaql.Interface): interfaces are handles in order of creation
+    | "yi" => ((Yaql.Interface.istep L defs s (.mk (jnat stp "i") (recvOf stp))).1, outs)
+    | "inject" => ((Yaql.Interface.istep L defs s (.inject (jnat stp "i") (recvOf stp))).1, outs)
+    | "on" => ((Yaql.Interface.istep L defs s (.on (jnat stp "y") (decVal (jget stp "recv")))).1, outs)
+    | "ycall" =>
+        let c := decCall (jget stp "call")
+        match (Yaql.Interface.istep L defs s (.call (jnat stp "y") (nm (jstr stp "name")) c.args c.kwargs)).2 with
+        | some o => (s, encOutcome o :: outs)
+        | none => (s, jerr "no such interface" :: outs)
+    | _ => (s, outs)
   jl ((jarr h "steps").foldl go ({}, [])).2.reverse
 
 /-! ### `specs.get_function_definition`: Python signature + decorators -> parameter table -/
@@ -226,7 +240,32 @@ def runSig (k : Consts) (j : Json) : Json :=
       | .error .duplicate => jo [("err", js "duplicate")]
       | .error .noParameterFound => jo [("err", js "noParameterFound")]
 
+/-- the tag of the value an argument slot carries, if it is an evaluated value or a constant -/
+def argTag : Arg → Option Nat
+  | .value (.obj _ _ t) => some t
+  | .const (.obj _ _ t) _ _ _ => some t
+  | _ => none
+
+def slotTag : Slot → Option Nat
+  | .arg a => argTag a
+  | .hid _ => none
+
+/-- `picky`: per overload `[fid, [positions], [keyword keys], star]` - the parameters whose smart type validates the
+    value in `convert`; `rejected`: the tags it turns down -/
+def convOf (picky : List Json) (rejected : List Nat) : Conv := fun i b =>
+  let bad := fun (t : Option Nat) => match t with | some t => rejected.contains t | none => false
+  picky.all fun row =>
+    match asArr row with
+    | [fid, ps, ks, star] =>
+        if asNat fid != i then true
+        else
+          (asArr ps).all (fun p => !bad ((b.pos.getD (asNat p) none).bind slotTag)) &&
+          (asArr ks).all (fun k => !bad ((b.kw.find? (·.1 == nm (asStr k))).bind (slotTag ·.2))) &&
+          (!(asBool star) || b.extra.all (fun a => !bad (argTag a)))
+    | _ => true
+
 /-- `{"lat":…, "fams":[{"layers":[…], "calls":[…]}]}` -> `{"out":[[outcome per call] per family]}`;
+    a family with `"picky"` / `"rejected"` also gets `"final"` (ran / conversion-failed / error) per call;
     with `"op":"sig"`: `{"consts":{"object":n,"vTrue":n}, "sigs":[signature + decorators]}` -> the parameter table
     `Yaql.Signature.define` makes of each;
     with `"op":"hist"`: `{"lat":…, "hists":[history]}` -> `{"out":[[outcome per call step] per history]}`;
@@ -252,6 +291,18 @@ def handle (req : Json) : Json :=
   | _ =>
       jo [("out", jl ((jarr req "fams").map fun f =>
         let layers := (jarr f "layers").map decLayer
-        jl ((jarr f "calls").map fun cj => encOutcome (resolve L layers (decCall cj)))))]
+        if jhas f "picky" then
+          -- the phase after choose_overload (`Yaql.Resolve.callFinal`): `convert` of the listed parameters turns the
+          -- values with the listed tags down
+          let conv := convOf (jarr f "picky") ((jarr f "rejected").map asNat)
+          jl ((jarr f "calls").map fun cj =>
+            let o := resolve L layers (decCall cj)
+            let fin := match (callFinal L conv layers (decCall cj)).2 with
+              | .ran _ _ => "ran" | .conversionFailed _ => "conversion-failed" | .error _ => "error"
+            match encOutcome o with
+            | .obj kvs => .obj (kvs.insert "final" (js fin))
+            | j => j)
+        else
+          jl ((jarr f "calls").map fun cj => encOutcome (resolve L layers (decCall cj)))))]
 
 end Yaql.Drv.Resolve
